@@ -34,7 +34,7 @@ FAULT_STATES = ["unbuildable", "unbuildable_real", "notimpl", "flaky"]
 EXCS = {"RuntimeError": RuntimeError, "ValueError": ValueError, "OSError": OSError, "KeyError": KeyError, "MemoryError": MemoryError, "InjectedFault": InjectedFault}
 VIEWS = ["contig", "slice", "step", "transpose", "inner", "expand"]
 CLS = ["rand", "all256", "zeros", "ff", "ramp", "cover", "low2"]
-ATEN = ["add", "eq", "sum", "select", "slice", "reshape", "clone", "to_int32", "cat", "stack", "eq2", "permute"]
+ATEN = ["add", "eq", "sum", "select", "slice", "reshape", "clone", "to_int32", "cat", "stack", "eq2", "permute", "equal"]
 OPKINDS = ["unpack_bytes", "unpack_packed", "pack", "aten", "detach", "to", "flatten", "noext", "mutate", "refill", "meta"]
 PREFIXES = ["", "w.", "weight._data.", "m.0.weight._data."]
 FALLBACK = "Falling back to default implementation"
@@ -232,6 +232,8 @@ def apply_aten(x, a, other):
         return torch.stack([x, other] if a.get("first", True) else [other, x], a.get("dim", 0))
     if fn == "eq2":
         return x == other
+    if fn == "equal":
+        return torch.equal(x, other) if a.get("first", True) else torch.equal(other, x)
     if fn == "permute":
         return x.permute(*a["perm"]).contiguous()
     raise KeyError(fn)
@@ -693,6 +695,29 @@ class World:
         self.log.add("big_unpacked", rows, cols, bits, outs)
         return ",".join(outs) or "skipped"
 
+    def op_twin(self, op, p):
+        """A second packed tensor made from the values of an existing one: packed again as they are, packed with the
+        other bit width (when the values fit), or with one all-zero row appended (same number of payload rows when
+        the row count is not a multiple of 8/bits). Material for operations that take two packed tensors."""
+        e = self.packed({"x": op.get("of")})
+        if e is None or op["id"] in self.pool:
+            return "skipped"
+        how, bits = op.get("how", "same"), e.bits
+        v = e.truth
+        if how == "bits":
+            bits = 6 - e.bits
+            if int(v.max(initial=0)) >= (1 << bits):
+                return "skipped"
+        elif how == "zero_row":
+            v = np.concatenate([v, np.zeros((1,) + v.shape[1:], dtype=v.dtype)], axis=0)
+        t = torch.from_numpy(v.copy())
+        P, exc = _call(lambda: self.PT.pack(t, bits))
+        if exc is not None or not isinstance(P, self.PT):
+            return "skipped"
+        self.pool[op["id"]] = Entry("packed", P, _np(P._data), bits, v.copy())
+        self.probe("packed_twin:" + how)
+        return "ok"
+
     def op_pack(self, op, p):
         bits, src = op.get("bits"), op["src"]
         if op["id"] in self.pool or bits not in (2, 4):
@@ -746,7 +771,7 @@ class World:
         if e is None or op.get("fn") not in ATEN:
             return "skipped"
         other_p = other_t = None
-        if op["fn"] in ("cat", "stack", "eq2"):
+        if op["fn"] in ("cat", "stack", "eq2", "equal"):
             o = self.pool.get(op.get("other")) if op.get("other") else e
             if o is None:
                 return "skipped"
@@ -765,6 +790,17 @@ class World:
                 self.probe("to_int32_refused_as_documented")
             return route
         what = f"{op['fn']}(P) vs {op['fn']}(values) for P of shape {tuple(e.truth.shape)} bits {e.bits}"
+        if op["fn"] == "equal":
+            # a Python bool: two packed tensors are equal exactly when their values are (whatever their bits,
+            # their padding rows or the unused positions of their last payload rows hold)
+            self.res["judged"] += 1
+            self.probe("equal_of_two_packed_tensors")
+            if bool(got) != bool(exp):
+                o = self.pool.get(op.get("other")) if op.get("other") else e
+                self.violate("op_on_unpacked", "aten", sig, f"torch.equal on packed tensors of shapes {tuple(e.truth.shape)} (bits {e.bits}) and {tuple(o.truth.shape) if o.kind == 'packed' else tuple(o.obj.shape)} (bits {o.bits}) returned {got}, on their values {exp} (route {route})", p)
+                return "WRONG"
+            self.log.add("aten", "equal", bool(exp))
+            return route
         if self.diff(got, _np(exp)) is not None and self.kernel_wrong(e, route):
             ok = self.values(got, _np(exp), e.bits, route, what, p)
         else:
@@ -1057,7 +1093,15 @@ class Planner:
             elif k == "mutate":
                 self.emit(ops, {"op": "mutate", "x": pid, "how": r.choice(["unpack", "unpack", "reshape", "select", "slice"]), "mut": r.choice(["add_", "add_", "zero_"]), "k": r.choice([1, 3, 255])})
             elif k == "aten":
-                self.emit(ops, self.aten(pid, shape))
+                op = self.aten(pid, shape)
+                if op["fn"] in ("equal", "eq2", "cat") and r.random() < 0.5:
+                    # the second operand is a twin made from the first one's values
+                    how = r.choice(["same", "bits", "zero_row", "zero_row"]) if op["fn"] == "equal" else "same"
+                    tid = f"p{self.n}t"
+                    self.emit(ops, {"op": "twin", "id": tid, "of": pid, "how": how})
+                    self.packs[tid] = (bits if how != "bits" else 6 - bits, list(shape) if how != "zero_row" else [shape[0] + 1] + list(shape[1:]))
+                    op["other"] = tid
+                self.emit(ops, op)
             else:
                 op = {"op": k, "x": pid}
                 if k == "to":
@@ -1088,6 +1132,9 @@ class Planner:
             op.update(dim=neg(dim), a=a, n=r.randint(0, shape[dim] - a))
         elif fn == "reshape":
             op["shape"] = r.choice([[-1], [shape[0], -1], [-1, shape[0]], list(reversed(shape)), [1] + shape])
+        elif fn == "equal":
+            # any other packed tensor (other shape, other bits), a packed twin of the same values, or itself
+            op.update(other=None if r.random() < 0.25 else r.choice(sorted(self.packs)), first=r.random() < 0.6)
         elif fn in ("stack", "eq2"):
             same = [i for i, (_, s) in self.packs.items() if list(s) == list(shape)]
             op.update(other=None if r.random() < 0.4 else r.choice(sorted(same)), dim=r.choice([0, -1, dim]), first=r.random() < 0.7)
